@@ -1431,19 +1431,533 @@ where
 // Trans: see part 2 below
 // ------------------------------------------------------------------------------------------
 
-//TRANS-PART
+
+/// one operation of a history
+#[derive(Clone, Debug)]
+enum Act<T: RefRing> {
+    Append(RMat<T>, RMat<T>),
+    Perm(Vec<usize>),
+    Sub(Vec<usize>),
+    Reduce,
+    /// `self.merge(other)`, `other` given by its own history
+    Merge(Arc<Hist<T>>),
+}
+
+#[derive(Clone, Debug)]
+struct Hist<T: RefRing> {
+    dim0: usize,
+    acts: Vec<Act<T>>,
+}
+
+impl<T: RefRing> Hist<T> {
+    fn show(&self) -> String {
+        let a: Vec<String> = self
+            .acts
+            .iter()
+            .map(|a| match a {
+                Act::Append(f, b) => format!("append(f={},b={})", f.show(), b.show()),
+                Act::Perm(p) => format!("append_perm({p:?})"),
+                Act::Sub(ix) => format!("sub({ix:?})"),
+                Act::Reduce => "reduce".to_string(),
+                Act::Merge(h) => format!("merge({})", h.show()),
+            })
+            .collect();
+        format!("id({}).{}", self.dim0, a.join("."))
+    }
+}
+
+/// Model state: the pair of dense matrices the transform must represent, the dimensions, and
+/// the class of the number of stored factors (0, 1, >= 2 — the implementation special-cases
+/// these).  `hist` is a witness history that rebuilds a real `Trans` in this state; it does not
+/// take part in equality.
+#[derive(Clone)]
+struct St<T: RefRing> {
+    key: String,
+    src: usize,
+    tgt: usize,
+    nf: u8,
+    f: RMat<T>,
+    b: RMat<T>,
+    hist: Arc<Hist<T>>,
+}
+
+impl<T: RefRing> PartialEq for St<T> {
+    fn eq(&self, o: &Self) -> bool {
+        self.key == o.key
+    }
+}
+impl<T: RefRing> Eq for St<T> {}
+impl<T: RefRing> Hash for St<T> {
+    fn hash<H: Hasher>(&self, h: &mut H) {
+        self.key.hash(h)
+    }
+}
+
+fn mk_state<T: RefRing>(src: usize, tgt: usize, nf: u8, f: RMat<T>, b: RMat<T>, hist: Arc<Hist<T>>) -> St<T> {
+    let key = format!("{src}>{tgt}|nf{nf}|F={}|B={}", f.show(), b.show());
+    St { key, src, tgt, nf, f, b, hist }
+}
+
+fn perm_mats<T: RefRing>(p: &[usize]) -> (RMat<T>, RMat<T>) {
+    // forward: new[p(i)] = old[i]; backward is its inverse
+    let n = p.len();
+    let mut f = RMat::zero(n, n);
+    let mut b = RMat::zero(n, n);
+    for i in 0..n {
+        f.set(p[i], i, T::one());
+        b.set(i, p[i], T::one());
+    }
+    (f, b)
+}
+
+fn sub_mats<T: RefRing>(n: usize, ix: &[usize]) -> (RMat<T>, RMat<T>) {
+    // forward keeps the coordinates ix[0], ix[1], ..; backward is the inclusion
+    let mut f = RMat::zero(ix.len(), n);
+    let mut b = RMat::zero(n, ix.len());
+    for (i, &j) in ix.iter().enumerate() {
+        f.set(i, j, T::one());
+        b.set(j, i, T::one());
+    }
+    (f, b)
+}
+
+/// reference successor
+fn step_ref<T: RefRing>(s: &St<T>, a: &Act<T>, other: Option<&St<T>>) -> (usize, u8, RMat<T>, RMat<T>) {
+    let app = |f: &RMat<T>, b: &RMat<T>| (f.m, (s.nf + 1).min(2), f.mul(&s.f), s.b.mul(b));
+    match a {
+        Act::Append(f, b) => app(f, b),
+        Act::Perm(p) => {
+            let (f, b) = perm_mats::<T>(p);
+            app(&f, &b)
+        }
+        Act::Sub(ix) => {
+            let (f, b) = sub_mats::<T>(s.tgt, ix);
+            app(&f, &b)
+        }
+        Act::Reduce => (s.tgt, s.nf.min(1), s.f.clone(), s.b.clone()),
+        Act::Merge(_) => {
+            let o = other.expect("merge partner");
+            (o.tgt, (s.nf + o.nf).min(2), o.f.mul(&s.f), s.b.mul(&o.b))
+        }
+    }
+}
+
+fn replay<R>(h: &Hist<R::Ref>) -> Trans<R>
+where
+    R: Ring + Bridge,
+    for<'x> &'x R: RingOps<R>,
+{
+    let mut t = Trans::<R>::id(h.dim0);
+    for a in &h.acts {
+        apply::<R>(&mut t, a);
+    }
+    t
+}
+
+fn apply<R>(t: &mut Trans<R>, a: &Act<R::Ref>)
+where
+    R: Ring + Bridge,
+    for<'x> &'x R: RingOps<R>,
+{
+    match a {
+        Act::Append(f, b) => t.append(dense_sp::<R>(f), dense_sp::<R>(b)),
+        Act::Perm(p) => t.append_perm(PermOwned::new(p.clone()).view()),
+        Act::Sub(ix) => *t = t.sub(ix),
+        Act::Reduce => t.reduce(),
+        Act::Merge(h) => t.merge(replay::<R>(h)),
+    }
+}
+
+struct TCk<'a> {
+    run: &'a Run,
+    ring: &'static str,
+    obs: &'a AtomicU64,
+}
+
+impl<'a> TCk<'a> {
+    fn fail(&self, state: &str, action: &str, what: String, hist: &str) {
+        self.run.fail(
+            &format!("c13:Trans:{}:{state}:{action}", self.ring),
+            &what,
+            json!({"ring": self.ring, "state": state, "action": action, "witness_history": hist}),
+        );
+    }
+
+    /// all observations of one transform against (F, B); returns the first discrepancy
+    fn observe<R>(&self, t: &Trans<R>, src: usize, tgt: usize, f: &RMat<R::Ref>, b: &RMat<R::Ref>) -> Result<(), String>
+    where
+        R: Ring + Bridge,
+        for<'x> &'x R: RingOps<R>,
+    {
+        let one_pass = |t: &Trans<R>, when: &str| -> Result<(), String> {
+            self.obs.fetch_add(1, Ordering::Relaxed);
+            if (t.src_dim(), t.tgt_dim()) != (src, tgt) {
+                return Err(format!("{when}: dims ({},{}) expected ({src},{tgt})", t.src_dim(), t.tgt_dim()));
+            }
+            let fm = sp_r(&t.forward_mat());
+            if fm != *f {
+                return Err(format!("{when}: forward_mat = {} expected {}", fm.show(), f.show()));
+            }
+            let bm = sp_r(&t.backward_mat());
+            if bm != *b {
+                return Err(format!("{when}: backward_mat = {} expected {}", bm.show(), b.show()));
+            }
+            if t.is_id() && !(f.is_id() && b.is_id()) {
+                return Err(format!("{when}: is_id() holds but the maps are F={} B={}", f.show(), b.show()));
+            }
+            // basis vectors and one dense vector (1,2,..)
+            let probes = |n: usize| -> Vec<Vec<R::Ref>> {
+                let mut v: Vec<Vec<R::Ref>> = (0..n)
+                    .map(|i| (0..n).map(|k| if k == i { <R::Ref as RefRing>::one() } else { <R::Ref as RefRing>::zero() }).collect())
+                    .collect();
+                v.push((0..n).map(|k| <R::Ref as RefRing>::from_i64(k as i64 + 1)).collect());
+                v
+            };
+            for v in probes(src) {
+                let sv = SpVec::<R>::from(v.iter().map(|x| R::from_ref(x)).collect::<Vec<R>>());
+                let got = spv_r(&t.forward(&sv));
+                let exp = f.mul_vec(&v);
+                if got != exp {
+                    return Err(format!("{when}: forward({}) = {} expected F*v = {}", show_vec(&v), show_vec(&got), show_vec(&exp)));
+                }
+            }
+            for v in probes(tgt) {
+                let sv = SpVec::<R>::from(v.iter().map(|x| R::from_ref(x)).collect::<Vec<R>>());
+                let got = spv_r(&t.backward(&sv));
+                let exp = b.mul_vec(&v);
+                if got != exp {
+                    return Err(format!("{when}: backward({}) = {} expected B*v = {}", show_vec(&v), show_vec(&got), show_vec(&exp)));
+                }
+            }
+            Ok(())
+        };
+        one_pass(t, "before reduce")?;
+        let mut t2 = t.clone();
+        t2.reduce();
+        one_pass(&t2, "after reduce")?;
+        // a second reduce must not change anything
+        t2.reduce();
+        one_pass(&t2, "after reduce twice")
+    }
+}
+
+/// all 0/±1 matrices of a shape, as reference matrices
+fn pm1_mats<T: RefRing>(m: usize, n: usize) -> Vec<RMat<T>> {
+    let vals = dense_values::<T>(&[0, 1, -1]);
+    (0..count(vals.len(), m * n)).map(|i| nth_dense(m, n, &vals, i)).collect()
+}
+
+/// the partner b of f in the history alphabet: b = phi(f)^T entrywise with the fixed-point-free
+/// bijection phi_s: x -> x + s (mod 3) on {-1,0,1}.  f runs over ALL 0/±1 matrices and so does b;
+/// b is never the transpose of f, so an f/b mix-up or a wrong composition order is visible.
+fn partner<T: RefRing>(f: &RMat<T>, shift: i64) -> RMat<T> {
+    let code = |x: &T| -> i64 {
+        if x.is_zero() {
+            0
+        } else if *x == T::one() {
+            1
+        } else {
+            -1
+        }
+    };
+    RMat::from_fn(f.n, f.m, |i, j| {
+        let c = (code(f.at(j, i)) + 1 + shift).rem_euclid(3) - 1;
+        T::from_i64(c)
+    })
+}
+
+struct TransStats {
+    states: u64,
+    transitions: u64,
+    per_level: Vec<u64>,
+}
+
+fn trans_bfs<R>(run: &Run, depth: usize, pool_level: usize, shifts: &[i64]) -> TransStats
+where
+    R: Ring + Bridge,
+    for<'x> &'x R: RingOps<R>,
+{
+    type T<R> = <R as Bridge>::Ref;
+    let obs = AtomicU64::new(0);
+    let trans = AtomicU64::new(0);
+    let ck = TCk { run, ring: R::NAME, obs: &obs };
+
+    // action alphabet per target dimension
+    let appends: Vec<Vec<Act<T<R>>>> = (0..=3usize)
+        .map(|d| {
+            let mut v = vec![];
+            if d <= 2 {
+                for k in 0..=2usize {
+                    for f in pm1_mats::<T<R>>(k, d) {
+                        for &s in shifts {
+                            let b = partner(&f, s);
+                            v.push(Act::Append(f.clone(), b));
+                            if k * d == 0 {
+                                break; // empty matrices: one partner only
+                            }
+                        }
+                    }
+                }
+            }
+            for p in perms(d) {
+                v.push(Act::Perm(p));
+            }
+            for ix in selections(d) {
+                v.push(Act::Sub(ix));
+            }
+            v.push(Act::Reduce);
+            v
+        })
+        .collect();
+
+    let init: Vec<St<T<R>>> = (0..=3usize).map(|n| mk_state(n, n, 0, RMat::id(n), RMat::id(n), Arc::new(Hist { dim0: n, acts: vec![] }))).collect();
+    for s in &init {
+        match catch(|| replay::<R>(&s.hist)) {
+            Ok(t) => {
+                if let Err(w) = catch(|| ck.observe::<R>(&t, s.src, s.tgt, &s.f, &s.b)).unwrap_or_else(|p| Err(format!("panicked: {p}"))) {
+                    ck.fail(&s.key, "init", w, &s.hist.show());
+                }
+                if !t.is_id() {
+                    ck.fail(&s.key, "init", "Trans::id(n).is_id() is false".into(), &s.hist.show());
+                }
+            }
+            Err(p) => ck.fail(&s.key, "init", format!("panicked: {p}"), &s.hist.show()),
+        }
+    }
+
+    let mut all: HashMap<String, (St<T<R>>, usize)> = HashMap::new(); // state, level first reached
+    for s in &init {
+        all.insert(s.key.clone(), (s.clone(), 0));
+    }
+    let mut frontier = init.clone();
+    let mut per_level = vec![frontier.len() as u64];
+    for level in 0..depth {
+        let last = level + 1 == depth;
+        let mut pool: Vec<St<T<R>>> = all.values().filter(|(_, l)| *l <= pool_level).map(|(s, _)| s.clone()).collect();
+        pool.sort_by(|a, b| a.key.cmp(&b.key));
+        let expand = |s: &St<T<R>>, _d: usize| -> Vec<St<T<R>>> {
+            let mut out = vec![];
+            let t0 = match catch(|| replay::<R>(&s.hist)) {
+                Ok(t) => t,
+                Err(p) => {
+                    ck.fail(&s.key, "replay", format!("replaying the witness history panicked: {p}"), &s.hist.show());
+                    return out;
+                }
+            };
+            // one transition = one execution of the real operation + all observations
+            let mut go = |base: &St<T<R>>, tbase: &Trans<R>, a: Act<T<R>>, other: Option<&St<T<R>>>, label: String| {
+                trans.fetch_add(1, Ordering::Relaxed);
+                let (tgt, nf, f, b) = step_ref(base, &a, other);
+                let mut acts = base.hist.acts.clone();
+                acts.push(a.clone());
+                let hist = Arc::new(Hist { dim0: base.hist.dim0, acts });
+                let r = catch(|| {
+                    let mut t = tbase.clone();
+                    apply::<R>(&mut t, &a);
+                    if let Act::Merge(h) = &a {
+                        // the by-reference variant must agree
+                        let t2 = tbase.merged(&replay::<R>(h));
+                        ck.observe::<R>(&t2, base.src, tgt, &f, &b).map_err(|w| format!("merged(): {w}"))?;
+                    }
+                    ck.observe::<R>(&t, base.src, tgt, &f, &b)
+                });
+                match r {
+                    Ok(Ok(())) => {
+                        if !last {
+                            out.push(mk_state(base.src, tgt, nf, f, b, hist));
+                        }
+                    }
+                    Ok(Err(w)) => ck.fail(&base.key, &label, w, &hist.show()),
+                    Err(p) => ck.fail(&base.key, &label, format!("panicked: {p}"), &hist.show()),
+                }
+            };
+            for a in &appends[s.tgt] {
+                let label = match a {
+                    Act::Append(f, b) => format!("append(f={},b={})", f.show(), b.show()),
+                    Act::Perm(p) => format!("append_perm({p:?})"),
+                    Act::Sub(ix) => format!("sub({ix:?})"),
+                    Act::Reduce => "reduce".to_string(),
+                    Act::Merge(_) => unreachable!(),
+                };
+                go(s, &t0, a.clone(), None, label);
+            }
+            for o in &pool {
+                if o.src == s.tgt {
+                    go(s, &t0, Act::Merge(o.hist.clone()), Some(o), format!("merge({})", o.key));
+                }
+                if o.tgt == s.src && o.key != s.key {
+                    if let Ok(to) = catch(|| replay::<R>(&o.hist)) {
+                        go(o, &to, Act::Merge(s.hist.clone()), Some(s), format!("merge({})", s.key));
+                    }
+                }
+            }
+            out
+        };
+        let (_, seen) = bfs(run, frontier.clone(), 1, u64::MAX, expand);
+        let mut next = vec![];
+        for s in seen {
+            if !all.contains_key(&s.key) {
+                all.insert(s.key.clone(), (s.clone(), level + 1));
+                next.push(s);
+            }
+        }
+        next.sort_by(|a, b| a.key.cmp(&b.key));
+        per_level.push(next.len() as u64);
+        frontier = next;
+        if run.over_budget() {
+            run.cap("wall budget reached in the Trans history search");
+            break;
+        }
+    }
+    run.add("trans_observation_passes", obs.load(Ordering::Relaxed));
+    if let Some(s) = all.values().find(|(s, l)| *l == 2 && s.nf == 2 && s.src == 2 && s.tgt == 2) {
+        run.sample(json!({"ring": R::NAME, "trans_state": s.0.key, "witness_history": s.0.hist.show()}));
+    }
+    TransStats { states: all.len() as u64, transitions: trans.load(Ordering::Relaxed), per_level }
+}
+
+/// histories of length 1 (and 2 when `two`) over the FULL product of pairs (f, b)
+fn trans_full_pairs<R>(run: &Run, two: bool) -> u64
+where
+    R: Ring + Bridge,
+    for<'x> &'x R: RingOps<R>,
+{
+    type T<R> = <R as Bridge>::Ref;
+    let obs = AtomicU64::new(0);
+    let n_exec = AtomicU64::new(0);
+    let ck = TCk { run, ring: R::NAME, obs: &obs };
+    // all pairs by (source dim d, target dim k)
+    let mut pairs: Vec<(RMat<T<R>>, RMat<T<R>>)> = vec![];
+    for d in 0..=2usize {
+        for k in 0..=2usize {
+            for f in pm1_mats::<T<R>>(k, d) {
+                for b in pm1_mats::<T<R>>(d, k) {
+                    pairs.push((f.clone(), b));
+                }
+            }
+        }
+    }
+    let chunk = 16;
+    run.par_for(pairs.len().div_ceil(chunk), |c| {
+        for i in c * chunk..((c + 1) * chunk).min(pairs.len()) {
+            let (f, b) = &pairs[i];
+            let (d, k) = (f.n, f.m);
+            let st = format!("new(f={},b={})", f.show(), b.show());
+            n_exec.fetch_add(1, Ordering::Relaxed);
+            let r = catch(|| {
+                let t = Trans::<R>::new(dense_sp::<R>(f), dense_sp::<R>(b));
+                ck.observe::<R>(&t, d, k, f, b)?;
+                let mut t2 = Trans::<R>::id(d);
+                t2.append(dense_sp::<R>(f), dense_sp::<R>(b));
+                ck.observe::<R>(&t2, d, k, f, b)?;
+                Ok::<Trans<R>, String>(t)
+            });
+            let t = match r {
+                Ok(Ok(t)) => t,
+                Ok(Err(w)) => {
+                    ck.fail(&st, "new", w, &st);
+                    continue;
+                }
+                Err(p) => {
+                    ck.fail(&st, "new", format!("panicked: {p}"), &st);
+                    continue;
+                }
+            };
+            if !two {
+                continue;
+            }
+            for (f2, b2) in pairs.iter().filter(|(f2, _)| f2.n == k) {
+                n_exec.fetch_add(1, Ordering::Relaxed);
+                let (ef, eb) = (f2.mul(f), b.mul(b2));
+                let r = catch(|| {
+                    let mut u = t.clone();
+                    u.append(dense_sp::<R>(f2), dense_sp::<R>(b2));
+                    ck.observe::<R>(&u, d, f2.m, &ef, &eb)
+                });
+                let act = format!("append(f={},b={})", f2.show(), b2.show());
+                match r {
+                    Ok(Ok(())) => {}
+                    Ok(Err(w)) => ck.fail(&st, &act, w, &format!("{st}.{act}")),
+                    Err(p) => ck.fail(&st, &act, format!("panicked: {p}"), &format!("{st}.{act}")),
+                }
+            }
+        }
+    });
+    run.add("trans_observation_passes", obs.load(Ordering::Relaxed));
+    n_exec.load(Ordering::Relaxed)
+}
 
 fn main() {
     let run = Run::new("C13", "model_checking");
-    let t0 = run.elapsed();
+    let th = run.thorough();
+    let mut timing = vec![];
+    let mut t0 = run.elapsed();
+    let mut lap = |run: &Run, what: &str| {
+        let now = run.elapsed();
+        timing.push(json!({"part": what, "wall_s": ((now - t0) * 10.0).round() / 10.0}));
+        t0 = now;
+    };
+
+    // ---- part 2 first (it is the model-checking part; cheap) ------------------------------------
+    let depth = if th { 4 } else { 3 };
+    let tz = trans_bfs::<i64>(&run, depth, 1, &[1]);
+    lap(&run, "Trans histories i64");
+    let tf = trans_bfs::<FF<3>>(&run, depth, 1, &[1, 2]);
+    lap(&run, "Trans histories FF<3>");
+    let tq = trans_bfs::<Ratio<i64>>(&run, if th { 3 } else { 2 }, 1, &[2]);
+    lap(&run, "Trans histories Ratio<i64>");
+    let full = trans_full_pairs::<i64>(&run, th) + trans_full_pairs::<FF<3>>(&run, false);
+    lap(&run, "Trans full pair product");
+
+    // ---- part 1 -------------------------------------------------------------------------------------
     containers::<i64>(&run);
-    println!("i64 containers: {:.1}s evals={}", run.elapsed() - t0, run.get("evaluations"));
-    let t0 = run.elapsed();
+    lap(&run, "containers i64");
     containers::<Ratio<i64>>(&run);
-    println!("Ratio containers: {:.1}s evals={}", run.elapsed() - t0, run.get("evaluations"));
-    let t0 = run.elapsed();
+    lap(&run, "containers Ratio<i64>");
     containers::<FF<3>>(&run);
-    println!("FF3 containers: {:.1}s evals={}", run.elapsed() - t0, run.get("evaluations"));
-    let ev = run.get("evaluations");
-    run.finish(json!({"states": 0, "transitions": 0, "traces_validated_against_impl": 0, "evaluations": ev}), &[]);
+    lap(&run, "containers FF<3>");
+
+    if run.get("cases_with_stored_zero") == 0 {
+        run.cap("no operand with an explicitly stored zero could be constructed");
+    }
+    let states = tz.states + tf.states + tq.states;
+    let transitions = tz.transitions + tf.transitions + tq.transitions;
+    let coverage = json!({
+        "states": states,
+        "transitions": transitions,
+        "traces_validated_against_impl": transitions + full,
+        "trans": {
+            "depth_bound": depth,
+            "i64": {"states": tz.states, "transitions": tz.transitions, "new_states_per_level": tz.per_level},
+            "FF<3>": {"states": tf.states, "transitions": tf.transitions, "new_states_per_level": tf.per_level},
+            "Ratio<i64>": {"states": tq.states, "transitions": tq.transitions, "new_states_per_level": tq.per_level, "depth_bound": if th { 3 } else { 2 }},
+            "full_pair_product_executions": full,
+            "observation_passes": run.get("trans_observation_passes"),
+            "state": "(src dim, tgt dim, F, B, class of the number of stored factors 0/1/>=2); a witness history rebuilds the real Trans",
+            "actions": "append(f, phi(f)^T) for all 0/+-1 f of shape k x tgt (k,tgt <= 2); append_perm(all p); sub(all ordered selections of distinct indices); reduce; merge(other)/merged(&other) in both roles with every state reached at level <= 1; initial states id(0..=3)",
+            "invariant": "src/tgt dims; forward_mat = F; backward_mat = B; forward(v) = F v and backward(w) = B w for all basis vectors and (1,2,..); is_id() => F = B = I; all of it again after reduce() and after a second reduce()",
+        },
+        "evaluations": run.get("evaluations"),
+        "distinct_nontrivial": run.get("cases_nontrivial"),
+        "cases": run.get("cases"),
+        "cases_with_stored_zero": run.get("cases_with_stored_zero"),
+        "rule": "a case = one operand tuple of one operation group (one-operand SpMat/SpVec/Mat sweep, or an ordered pair for + - * concat stack extend_cols mat*vec), operands enumerated completely as cell assignments over {not stored, stored 0, -1, 1, 2} (SpMat/SpVec) or {0,1,-1,2} (Mat) for every shape in the bound; distinct by construction; nontrivial = no zero dimension and every operand non-zero; 'evaluations' = library calls whose result was compared entry by entry with the dense reference",
+        "bounds": {
+            "shapes": if th { "{0,1,2,3}^2 (vectors up to dimension 4)" } else { "{0,1,2}^2 (vectors up to dimension 3)" },
+            "pair_alphabet": "total cells <= 10: {., 0, -1, 1, 2}; 11..14: {., 0, 1}; more: {., 1} and {0, -1} (dense: <= 12: {0,1,-1,2}; <= 15: {0,1,-1}; more: {0,1})",
+        },
+        "timing": timing,
+        "exhaustive": true,
+    });
+    run.finish(
+        coverage,
+        &[
+            "dense reference: vcore::refmat::RMat over BigInt-based vcore::refnum rings",
+            "operands with explicitly stored zeros are built with SpVec::from_sorted_entries + SpMat::from_col_vecs (checked: the storage pattern is the requested one)",
+            "permutation convention as documented by the library: permute(p,q) sends entry (i,j) to (p(i),q(j)); from_row_perm(p)*a = a.permute_rows(p); a*from_col_perm(q) = a.permute_cols(q)",
+            "COO duplicates (from_entries listing a position twice) are not in the domain; sub(indices) is called with distinct indices",
+            "Trans BFS merges real transforms with equal (dims, F, B, factor-count class); pairs (f,b) of the history alphabet are (f, phi(f)^T), the full product of pairs is covered for histories of length 1 (2 in thorough, i64)",
+            "not compared: PartialEq between differently stored equal matrices, nnz/density/redundancy/mean_weight (storage statistics), Display/serde",
+        ],
+    );
 }
